@@ -1,7 +1,24 @@
-/- C07 driver: op lines in, observable lines out (same format as harness/C07). -/
+/- C07 driver: op lines in, observable lines out (same format as props/C07/harness.cpp).
+
+Line syntax: `[F] <op> …`.  A request for `new[]` succeeds iff it is at most `allocLimit` bytes (the
+harness's interposed `operator new[]` does the same).  A leading `F` first runs the operation with an
+allocator that refuses everything; if that attempt reports failure it must have been a no-op
+(`keep=1`), and the operation is then run again with the working allocator — so the state lines do
+not depend on whether the capacity policy needed an allocation (that is in the `M` line).  Per operation: a `B` line (branch tags), a state line (`P`, or
+`M` once the case has over-committed or appended from its own storage: the content then depends on
+the capacity policy) and an `M` line
+with what a harmless rewrite may change (how a failure was reported, allocator traffic,
+writable size, live blocks). -/
 import TboxModel.Util
 import TboxModel.C07.Model
 open Tbox.Util Tbox.C07
+
+/-- the harness's allocator refuses requests above 16 MiB -/
+def allocLimit : Nat := 16777216
+
+structure DState where
+  s : Store := init
+  tainted : Bool := false     -- an over-commit happened in this case
 
 def showStore (s : Store) : String :=
   "|".intercalate (s.map fun b => hexOfBytes b.readable ++ ":" ++ toString b.readableSize)
@@ -10,17 +27,31 @@ def slot? (w : String) : Option Nat := do
   let i ← w.toNat?
   if i < nSlots then some i else none
 
+/-- a `size_t` literal -/
+def num? (w : String) : Option Nat := do
+  if w.length > 20 ∨ w.isEmpty ∨ !(w.all Char.isDigit) then none
+  let n ← w.toNat?
+  if n < W then some n else none
+
 def parseOp (ws : List String) : Option Op :=
   match ws with
-  | ["ctor", i, c] => do pure (.construct (← slot? i) (← c.toNat?))
+  | ["ctor", i, c] => do pure (.construct (← slot? i) (← num? c))
+  | ["ctord", i] => do pure (.defaultCtor (← slot? i))
   | ["app", i, d] => do pure (.append (← slot? i) (← bytesOfHex d))
-  | ["res", i, n] => do pure (.reserve (← slot? i) (← n.toNat?))
+  | ["appa", i, pl, d] => do
+      let p ← num? pl
+      if p < 16 then pure (.append (← slot? i) (← bytesOfHex d)) else none
+  | ["apps", i, off, k] => do pure (.appendSelf (← slot? i) (← num? off) (← num? k))
+  | ["res", i, n] => do pure (.reserve (← slot? i) (← num? n))
   | ["rwc", i, n, d] => do
-      let n ← n.toNat?; let d ← bytesOfHex d
+      let n ← num? n; let d ← bytesOfHex d
       if d.length ≤ n then pure (.rwc (← slot? i) n d) else none
-  | ["over", i, n] => do pure (.over (← slot? i) (← n.toNat?))
-  | ["fetch", i, n] => do pure (.fetch (← slot? i) (← n.toNat?))
-  | ["con", i, n] => do pure (.consume (← slot? i) (← n.toNat?))
+  | ["over", i, n] => do pure (.over (← slot? i) (← num? n))
+  | ["fetch", i, n] => do pure (.fetch (← slot? i) (← num? n))
+  | ["fetcha", i, pl, n] => do
+      let p ← num? pl
+      if p < 16 then pure (.fetch (← slot? i) (← num? n)) else none
+  | ["con", i, n] => do pure (.consume (← slot? i) (← num? n))
   | ["conall", i] => do pure (.consumeAll (← slot? i))
   | ["shrink", i] => do pure (.shrink (← slot? i))
   | ["cpa", d, s] => do pure (.copyAssign (← slot? d) (← slot? s))
@@ -35,44 +66,90 @@ def parseOp (ws : List String) : Option Op :=
   | ["reset", i] => do pure (.reset (← slot? i))
   | _ => none
 
-def ensureTag (b : Buf) (n : Nat) : String :=
-  if n = 0 then "ensure0" else if b.writable ≥ n then "enough"
-  else if b.writable + b.r ≥ n then (if b.r > 0 ∧ b.w > b.r then "compact-nonempty" else "compact")
-  else (if b.r > 0 ∧ b.w > b.r then "grow-r>0" else if b.mem.isEmpty then "grow-null" else "grow")
+def sizeTag (n : Nat) : String :=
+  if n ≥ 9223372036854775808 then " n>=2^63" else if n ≥ 4294967296 then " n>=2^32"
+  else if n ≥ 2147483648 then " n>=2^31" else if n ≥ 65536 then " n>=2^16" else ""
+
+def ensureTag (al : Alloc) (b : Buf) (n : Nat) : String :=
+  (if n = 0 then "ensure0" else if b.writable ≥ n then "enough"
+  else if uadd b.writable b.r ≥ n then (if b.r > 0 ∧ b.w > b.r then "compact-nonempty" else "compact")
+  else if b.w > maxHalf ∨ n > maxHalf - b.w then
+    (if b.w + n ≥ W then "refused-sum-wraps" else "refused-double-wraps")
+  else if !(al (Buf.growSize b.w n)) then (if Buf.growSize b.w n > allocLimit then "alloc-too-big" else "alloc-fault")
+  else (if b.r > 0 ∧ b.w > b.r then "grow-r>0" else if b.mem.isEmpty then "grow-null" else "grow")) ++ sizeTag n
 
 def readTag (b : Buf) (n : Nat) : String :=
-  if b.readableSize = 0 then "read-empty" else if n = 0 then "read0"
-  else if n ≥ b.readableSize then "snap" else "partial"
+  (if b.readableSize = 0 then "read-empty" else if n = 0 then "read0"
+  else if n ≥ b.readableSize then "snap" else "partial") ++ sizeTag n
+
+def cloneTag (al : Alloc) (o : Buf) : String :=
+  if o.readableSize > 0 then (if al o.readableSize then "copy-nonempty" else "copy-alloc-fault") else "copy-empty"
 
 /-- which branches of the model this op exercises (distribution / non-triviality only) -/
-def branchTags (s : Store) : Op → String
-  | .append i d => ensureTag (s.get i) d.length
-  | .reserve i n => ensureTag (s.get i) n
-  | .rwc i n _ => ensureTag (s.get i) n
-  | .over _ _ => "overcommit"
+def branchTags (al : Alloc) (s : Store) : Op → String
+  | .append i d => ensureTag al (s.get i) d.length ++ (if d.length < 4 then " len<4" else "")
+  | .appendSelf i off k =>
+      if off + k ≤ (s.get i).readableSize then "self-append " ++ ensureTag al (s.get i) k else "self-append-skip"
+  | .reserve i n => ensureTag al (s.get i) n
+  | .rwc i n _ => ensureTag al (s.get i) n
+  | .over _ n => "overcommit" ++ sizeTag n
   | .fetch i n => readTag (s.get i) n
   | .consume i n => readTag (s.get i) n
-  | .copyAssign d c => if d = c then "self-assign" else if (s.get c).readableSize > 0 then "copy-nonempty" else "copy-empty"
-  | .copyCtor _ c => if (s.get c).readableSize > 0 then "copy-nonempty" else "copy-empty"
-  | .moveAssign d c => if d = c then "self-move" else "move"
-  | .shrink i => if (s.get i).readableSize > 0 then "shrink-nonempty" else "shrink-empty"
+  | .copyAssign d c => if d = c then "self-assign" else cloneTag al (s.get c)
+  | .copyCtor _ c => cloneTag al (s.get c)
+  | .moveAssign d c => if d = c then "self-move" else if (s.get c).mem.isEmpty then "move-from-null" else "move"
+  | .moveCtor _ c => if (s.get c).mem.isEmpty then "move-from-null" else "move"
+  | .shrink i => if (s.get i).readableSize > 0 then cloneTag al (s.get i) ++ " shrink-nonempty" else "shrink-empty"
+  | .swap i j => if i = j then "self-swap" else "swap"
+  | .construct _ c => if c = 0 then "ctor0" else if !(al c) then "ctor-alloc-fault" else "ctor"
+  | .defaultCtor _ => if !(al kInitialSize) then "ctor-alloc-fault" else "ctord"
   | _ => "other"
 
-def stepLine (s : Store) (line : String) : Store × List String :=
+def firstSlot : Op → Nat
+  | .construct i _ | .defaultCtor i | .append i _ | .appendSelf i _ _ | .reserve i _ | .rwc i _ _
+  | .over i _ | .fetch i _ | .consume i _ | .consumeAll i | .shrink i | .reset i | .swap i _ => i
+  | .copyAssign d _ | .moveAssign d _ | .copyCtor d _ | .moveCtor d _ => d
+
+def live (s : Store) : Nat := (s.map Buf.owns).foldl (· + ·) 0
+
+def stepLine (st : DState) (line : String) : DState × List String :=
   let ws := words line
   match ws with
-  | [] => (s, [])
-  | "case" :: _ => (init, [line.trimAscii.toString])
+  | [] => (st, [])
+  | "case" :: _ => ({}, [line.trimAscii.toString])
+  | ["teardown"] =>
+      -- every buffer is destroyed (all blocks must be gone), then the slots are default-constructed again
+      ({ st with s := init }, ["P live=0"])
   | _ =>
+    let (fault, ws) := match ws with
+      | "F" :: rest => (true, rest)
+      | _ => (false, ws)
+    let al : Alloc := if fault then (fun _ => false) else (fun sz => sz ≤ allocLimit)
     match parseOp ws with
-    | none => (s, ["bad-op"])
+    | none => (st, ["bad-op"])
     | some op =>
-      let (s', o) := step s op
-      -- `over` exposes the capacity (an implementation detail): model-internal line
-      let tag := match op with | .over _ _ => "M " | _ => "P "
+      let s := st.s
+      -- `F op`: an attempt with a failing allocator; if it reports failure (a no-op: `C07_fail_noop`)
+      -- the operation is executed again with the working allocator
+      let okAl : Alloc := fun sz => sz ≤ allocLimit
+      let (s1, o1) := step al s op
+      let (s', o) := if fault ∧ o1.st ≠ .ok then
+          let (s2, o2) := step okAl s1 op
+          (s2, { o2 with news := o1.news + o2.news, dels := o1.dels + o2.dels })
+        else (s1, o1)
+      let keep := if fault ∧ o1.st ≠ .ok then (if showStore s1 = showStore s then "1" else "0") else "1"
+      let tainted := st.tainted || (match op with | .over _ _ => true | .appendSelf _ _ _ => true | _ => false)
+      -- after an over-commit the content depends on the capacity (an implementation detail)
+      let tag := if tainted then "M " else "P "
       let wr := match op with
-        | .reserve i n => if (s'.get i).writable ≥ n then " wr=1" else " wr=0"
+        | .reserve i n => if o.st = .ok then (if (s'.get i).writable ≥ n then " wr=1" else " wr=0") else ""
         | _ => ""
-      (s', ["B " ++ branchTags s op, tag ++ showStore s' ++ " ret=" ++ toString o.ret ++ " out=" ++ hexOfBytes o.fetched ++ wr])
+      let how := match o1.st with | .ok => "ok" | .refused => "refused" | .badAlloc => "badalloc"
+      ({ s := s', tainted := tainted },
+       ["B " ++ branchTags al s op,
+        tag ++ showStore s' ++ " ret=" ++ toString o.ret ++ " out=" ++ hexOfBytes o.fetched ++
+          " st=" ++ (if o.st = .ok then "ok" else "fail") ++ " in=1 keep=" ++ keep ++ wr,
+        "M how=" ++ how ++ " news=" ++ toString o.news ++ " dels=" ++ toString o.dels ++
+          " wsz=" ++ toString (s'.get (firstSlot op)).writable ++ " live=" ++ toString (live s')])
 
-def main : IO Unit := runDriver init stepLine
+def main : IO Unit := runDriver ({} : DState) stepLine
